@@ -293,20 +293,21 @@ func (c *FSM) Restore(old io.ReadCloser) error {
 	c.stateLock.Lock()
 	stateOld := c.state
 	c.state = stateNew
+	c.stateLock.Unlock()
 
 	// Tell the EventPublisher to cycle anything watching these topics. Replacement
 	// of the state store means that indexes could have gone backwards and data changed.
 	//
-	// This needs to happen while holding the state lock to ensure its not racey. If we
-	// did this outside of the locked section closer to where we abandon the old store
-	// then there would be a possibility for new streams to be opened that would get
-	// a snapshot from the cache sourced from old data but would be receiving events
-	// for new data. To prevent that inconsistency we refresh the topics while holding
-	// the lock which ensures that any subscriptions to topics for FSM generated events
+	// This must not happen while holding the state lock: the publisher takes its own
+	// lock, and a new subscription holds that lock while its snapshot function calls
+	// State(), so refreshing under the state lock deadlocks the restore against that
+	// subscription. Refreshing right after the swap is enough: no command is applied
+	// (and so no event of the new state is published) before Restore returns, every
+	// subscription opened before the refresh - whichever store or cached snapshot it
+	// was served from - is closed by it, and every later one reads the new store.
 	if c.deps.Publisher != nil {
 		c.deps.Publisher.RefreshAllTopics()
 	}
-	c.stateLock.Unlock()
 
 	// Signal that the old state store has been abandoned. This is required
 	// because we don't operate on it any more, we just throw it away, so
